@@ -134,6 +134,7 @@ def work(args):
             cases.append(c)
         run_cases(part, cases, workdir, f'{prop}-{pi}-{lo}')
         res = {'evaluations': 0, 'inconclusive': 0, 'violations': [], 'obs': obs, 'digests': set(), 'samples': [], 'sigs': set(), 'part': part['name']}
+        witnessed = set()
         for c in cases:
             vs, ok = judge_case(part, c, obs)
             if not ok:
@@ -151,7 +152,10 @@ def work(args):
                 if v['sig'] in seen:
                     continue
                 seen.add(v['sig'])
-                res['violations'].append({'v': dict(v), 'case': {'scenarios': c['scenarios'][:], 'meta': c.get('meta'), 'idx': c['idx']}})
+                # the witness carries the recorded history of the run that violated (re-runs of a racy case may not)
+                res['violations'].append({'v': dict(v), 'case': {'scenarios': c['scenarios'][:], 'meta': c.get('meta'), 'idx': c['idx']},
+                                          'records': [trim_records(h.R) for h in c['hist']] if v['sig'] not in witnessed else None})
+                witnessed.add(v['sig'])
         # bound what travels back: keep at most 3 witnesses per signature
         per = collections.Counter()
         keep = []
@@ -166,6 +170,18 @@ def work(args):
         return res
     except Exception:
         return {'error': traceback.format_exc(), 'part': str(pi)}
+
+
+def trim_records(R, limit=1500):
+    out = []
+    for e in R[:limit]:
+        e = dict(e)
+        if e.get('t') == 'op' and e.get('op') in ('snapshot', 'run') and isinstance(e.get('res'), dict):
+            e['res'] = {k: v for k, v in e['res'].items() if k not in ('live', 'tasks', 'procs', 'messages', 'events', 'models', 'snap')}
+        if e.get('t') == 'qp':
+            e.pop('snap', None)
+        out.append(e)
+    return out
 
 
 def sample_of(c):
@@ -334,7 +350,8 @@ def check(prop, spec, a, workdir, known, t0):
     for v in violations:
         path = os.path.join(ROOT, 'replays', prop, digest(v['sig']) + '.json')
         with open(path, 'w') as f:
-            json.dump({'property': prop, 'sig': v['sig'], 'detail': v['detail'], 'count': v['count'], 'reproduced': v['reproduced'], 'case': v['witness']['case'], 'violation': v['witness']['v']}, f, indent=1)
+            json.dump({'property': prop, 'sig': v['sig'], 'detail': v['detail'], 'count': v['count'], 'reproduced': v['reproduced'], 'case': v['witness']['case'], 'violation': v['witness']['v'],
+                       'witness_records': v['witness'].get('records')}, f, indent=1)
         lines.append(f"VIOLATION property={prop} replay={path}")
         lines.append(f"  signature: {v['sig']}  (seen {v['count']}x, confirmation re-runs reproduced {v['reproduced']})")
         lines.append(f"  detail: {v['detail']}")
